@@ -36,6 +36,11 @@ def fit_cases(tier):
         for vr in ((False, True) if val else (False,)):
             for ecb in ((False, True) if ev and not vr else (False,)):      # Evaluator built with user epoch_callback / step_callback metrics
                 out.append(dict(epochs=ep, n_train=nt, bs=bs, val=val, ev=ev, cb_train=ct, cb_val=cv, rem=rem, val_raises=vr, ev_cb=ecb))
+    # histories of the loaders: somebody looked at a first batch (next(iter(loader))) before fit, or an epoch callback does so in every epoch -- the loader is then
+    # partially consumed when the epoch's own iteration starts, which must start from the first batch all the same
+    for peek, ep, nt, bs, val, ev in itertools.product(("before", "callback"), (1, 2, 3), (1, 2, 3), (1, 2), (None, 1, 2), (None, "multi-class")):
+        for ct, cv in (((True, True), (True, False), ("child", True)) if peek == "callback" else ((False, False), (True, True))):
+            out.append(dict(FIT_DEFAULT, epochs=ep, n_train=nt, bs=bs, val=val, ev=ev, cb_train=ct, cb_val=cv, peek=peek))
     return out
 
 
